@@ -160,7 +160,7 @@ TEMPLATE_CLASSES = sorted(set(SMOOTH_GD + PROX_OK + ["SmoothFunction", "Nonexpan
 
 @st.composite
 def model(draw, max_steps=3, allow_lmi=True, allow_nonsym_lmi=False, allow_partition=True, allow_composite=True,
-          allow_extras=True, classes=None):
+          allow_extras=True, classes=None, allow_redeclare=False):
     """Emit a bounded, feasible method-like model.  Returns dict(instrs, meta)."""
     em = Emitter()
     meta = {"tags": []}
@@ -382,8 +382,10 @@ def model(draw, max_steps=3, allow_lmi=True, allow_nonsym_lmi=False, allow_parti
     if allow_extras:
         nextra = draw(st.integers(0, 3))
         for _ in range(nextra):
-            kind = draw(st.sampled_from(["cons_const", "cons_fn", "lmi_t", "unused", "redundant_lmi", "redeclare",
-                                         "useless_partition", "cons_eq", "nonsym_lmi"]))
+            kinds = ["cons_const", "cons_fn", "lmi_t", "unused", "redundant_lmi", "useless_partition", "cons_eq", "nonsym_lmi"]
+            if allow_redeclare:
+                kinds.append("redeclare")
+            kind = draw(st.sampled_from(kinds))
             if kind == "cons_const":
                 # a valid bound with a constant term: |p|^2 <= big  or  <p,q> <= big
                 p, q = draw(st.sampled_from(points_for_extras)), draw(st.sampled_from(points_for_extras))
